@@ -54,11 +54,13 @@ def build(tier, seed):
     for h in (["adxDbcQb", "adEacRa", "adbyxRtcRb", "acxa"] if quick else ["adxDbcQb", "adEacRa", "adbyxRtcRb", "acxa", "adcQtcRab", "adbyxcRQb", "abx", "adhcQtcRab"]):
         for ia, ib in ((60, 60), (0, C07.NEVER)):
             qs.append(C07.fq("fileset_%s_i%s" % (h, ia), h, ia, ib))
+    # the real libmy/my_fileset.c: every object handed out by the load callback is destroyed exactly once
+    qs += [q for q in C07.myfileset_queries(quick) if q.name in ("myfileset_ab_bc", "myfileset_aa_aab", "myfileset_a_ab_b", "myfileset_abc_abc_vanishes", "myfileset_aa_aa_a", "myfileset_none_a")]
     meta = {
-        "functions": sc.FUNCS + C07.FUNCS + ["mtbl_reader_init/_fd/destroy", "reader_iter_free", "merger_iter_free", "mtbl_writer_destroy", "mtbl_iter_destroy"],
-        "units": ["mtbl/sorter.c", "mtbl/reader.c", "mtbl/merger.c", "mtbl/writer.c", "mtbl/iter.c", "mtbl/source.c", "mtbl/fileset.c"],
+        "functions": sc.FUNCS + C07.FUNCS + ["my_fileset_init", "my_fileset_reload", "my_fileset_destroy"] + ["mtbl_reader_init/_fd/destroy", "reader_iter_free", "merger_iter_free", "mtbl_writer_destroy", "mtbl_iter_destroy"],
+        "units": ["mtbl/sorter.c", "mtbl/reader.c", "mtbl/merger.c", "mtbl/writer.c", "mtbl/iter.c", "mtbl/source.c", "mtbl/fileset.c", "libmy/my_fileset.c"],
         "bounds": "the life-cycle shapes listed under 'queries': objects destroyed at every stage (sorter before/after iteration, after a refused add, pooled with chunk jobs still undelivered, failing merge callback; reader iterators abandoned after one call; files that do not open; merger iterators of all kinds abandoned; writers with refused adds; filesets with a dup, open iterators, reloads and destroy in either order); CBMC --memory-leak-check plus ghost tables for descriptors, mappings and temp files",
-        "outside": "libmy/my_fileset.c itself (contract model in the fileset queries), real threads (C13/C14), histories longer than the harness shapes; 'all finite histories' is approximated by destroy-at-every-stage shapes",
+        "outside": "fileset.c and my_fileset.c are run in separate queries meeting at my_fileset's contract; real threads (C13/C14), histories longer than the harness shapes; 'all finite histories' is approximated by destroy-at-every-stage shapes",
         "stubs": sc.STUBS + rc.STUBS + C07.STUBS,
         "assumptions": [],
         "exhaustive": False,
